@@ -43,6 +43,17 @@ def main(argv=None):
         if rc == 0 and a.tier == 'thorough' and not a.no_liveness and os.environ.get('LSA_NO_LIVENESS') != '1':
             from . import liveness
             rc = liveness.run(pid)
+            # record what the rule-liveness run covered in the evidence file
+            import json
+            from .report import evidence_dir
+            ep = os.path.join(evidence_dir(), f'{pid}.json')
+            with open(ep) as fh:
+                ev = json.load(fh)
+            ev['coverage']['rule_liveness'] = dict(liveness.LAST, note='every variant is applied to a scratch copy of the '
+                                                   'current tree; fire variants must be reported by the named clause, silent '
+                                                   '(behaviour-preserving) variants must pass')
+            with open(ep, 'w') as fh:
+                json.dump(ev, fh, indent=1)
         return rc
     except AnalysisError as e:
         print(f'ANALYSIS-ERROR property={pid}: {e}')
